@@ -151,6 +151,13 @@ macro_rules! digest {
             pub fn reset(&mut self) {
                 self.engine.reset(&$state);
             }
+
+            /// verification hook: preset the count of bytes processed so far (must be used on a
+            /// context whose buffer is empty, with a multiple of the block size)
+            #[cfg(cryptoxide_verif)]
+            pub fn verif_set_processed_bytes(&mut self, n: u128) {
+                self.engine.processed_bytes = n as _;
+            }
         }
     };
 }
